@@ -320,8 +320,12 @@ class IncludeIpsNode(NodeProtocol):
             if ips_file.read(5) != b"PATCH":
                 raise RuntimeError(f'{self.ips_file_path} is missing "PATCH" header')
 
-            while ips_file.peek(3)[:3] != b"EOF":
-                block_addr_bytes = struct.unpack(">BH", self._read_exactly(ips_file, 3))
+            while True:
+                # read the marker rather than peek at it: peek() may return fewer bytes than asked at a buffer end.
+                record_start = self._read_exactly(ips_file, 3)
+                if record_start == b"EOF":
+                    break
+                block_addr_bytes = struct.unpack(">BH", record_start)
                 block_addr = (block_addr_bytes[0] << 16) | block_addr_bytes[1]
                 block_size_word = struct.unpack(">H", self._read_exactly(ips_file, 2))
                 block_size = block_size_word[0]
